@@ -583,6 +583,15 @@ func StrReplaceAll(s, old, nw *Term) *Term {
 	if s.Const && old.Const && nw.Const {
 		return Str(strings.ReplaceAll(s.Str, old.Str, nw.Str))
 	}
+	if s.Const && old.Const && old.Str != "" {
+		// constant text, constant pattern, symbolic replacement: splice
+		parts := strings.Split(s.Str, old.Str)
+		r := Str(parts[0])
+		for _, p := range parts[1:] {
+			r = StrConcat(StrConcat(r, nw), Str(p))
+		}
+		return r
+	}
 	if s.BS != nil {
 		if !old.Const || !nw.Const {
 			panic("bvstr ReplaceAll needs constant pattern and replacement")
